@@ -1,5 +1,6 @@
 """C02 — decided on generated stylesheets: byte-exact model correspondence + reference-semantics comparison."""
 from . import sheetprop as P
+from ..gens import sheet as S
 
 FEATURES = "amp,leadcomb,attr,pseudo2".split(',')
 RULE = 'see harness/props/sheetprop.py: generated stylesheets with features %s; model compared byte-for-byte, reference semantics compared on the flat items read back from the output CSS by an independent reader' % FEATURES
@@ -22,8 +23,46 @@ def nontrivial(sh):
     return P.count_kind(sh, 'decl') >= 2
 
 
+def hook(g, rng):
+    """besides the free generator: (A) two parents made of the SAME simple selectors, once as a compound (.a.b) and once as a list
+    (.a, .b), also one level down through & (&.a&.b / &.a, &.b), each holding the same nested selector list; (B) products of
+    selector lists beyond 256 combinations (5 x 4 x 4 x 4, or several & under several parents)"""
+    k = rng.random()
+    if k < 0.75:
+        sh = g.sheet(nunits=rng.choice([1, 1, 2, 3]), depth=rng.randint(1, 3))
+        return sh if S.sel_count(sh) <= 40 else None
+    cls = lambda n: ('class', '.' + n)
+    if k < 0.97:
+        a, b = rng.sample(['a', 'b', 'c1', 'nav', 'x-1'], 2)
+        child = g.selectors(nested=True)
+        mk = lambda: ('rule', [list(x) for x in child], [g.decl([])], {'sp_brace': True})
+        compound = [[cls(a), cls(b)]]
+        listed = [[cls(a)], [cls(b)]]
+        if rng.random() < 0.5:
+            units = [('rule', compound, [mk()], {'sp_brace': True}), ('rule', listed, [mk()], {'sp_brace': True})]
+        else:
+            outer = g.selectors(False)
+            units = [('rule', outer, [('rule', [[('amp',), cls(a), ('amp',), cls(b)]], [mk()], {'sp_brace': True}),
+                                      ('rule', [[('amp',), cls(a)], [('amp',), cls(b)]], [mk()], {'sp_brace': True})], {'sp_brace': True})]
+        if rng.random() < 0.5:
+            units.reverse()
+        return units + g.sheet(nunits=1, depth=1)
+    # large products
+    names = ['a', 'b', 'c', 'd', 'e', 'f', 'g', 'h', 'i', 'j', 'k', 'l', 'm', 'n', 'o', 'p', 'q', 'r']
+    rng.shuffle(names)
+    if rng.random() < 0.5:
+        lv = [names[0:5], names[5:9], names[9:13], names[13:17]]
+        node = ('rule', [[cls(x)] for x in lv[3]], [g.decl([]), ('rule', [[('comb', '>', False), cls('z')]], [g.decl([])], {'sp_brace': True})], {'sp_brace': True})
+        for level in (lv[2], lv[1], lv[0]):
+            node = ('rule', [[cls(x)] for x in level], [node], {'sp_brace': True})
+        return [node]
+    parents = [[cls(x)] for x in names[:rng.choice([4, 5])]]
+    amps = [('amp',), ('comb', '+', True), ('amp',), ('comb', '+', True), ('amp',), ('comb', '+', True), ('amp',)]
+    return [('rule', parents, [('rule', [amps], [g.decl([]), ('rule', [[('amp',), cls('w')]], [g.decl([])], {'sp_brace': True})], {'sp_brace': True})], {'sp_brace': True})]
+
+
 def run(ctx):
-    return P.run_sheets(ctx, 2, FEATURES, 120, 3000, depth=3, all_opts=False, wild=False, nontrivial=nontrivial)
+    return P.run_sheets(ctx, 2, FEATURES, 120, 3000, depth=3, all_opts=False, wild=False, nontrivial=nontrivial, gen_hook=hook, max_sels=1000)
 
 
 replay = P.replay
